@@ -34,7 +34,7 @@ pub fn plan(p: &EpParams) -> Plan {
     Plan {
         episodes: n,
         exhaustive: false,
-        rule: "sequential episodes on a populated server (2 topics, 3 subscriptions, backlog and leases): 20-30 seeded requests each with one corrupted field (hostile resource names incl. near-miss names, empty / 1 MiB / NUL / non-ASCII / huge non-ASCII / slash-heavy strings; boundary integers for page_size, max_messages, ack_deadline_seconds, modify seconds, max_outstanding_messages; ack-ID batches with one bad element at each position (non-numeric, signed, padded, fractional, full-width digits, and decimal numbers just past 2^64-1 such as 2^64 and 2^64+1); hostile page tokens; unsupported push endpoints; StreamingPull first messages and control messages that mix valid acks with invalid modifications, repeat subscription / max_outstanding_* or have mismatched arrays), every 5th request a pair of corruptions. Non-trivial: >=1 corrupted request was answered. Distinct: (request type, field, corruption class).".into(),
+        rule: "sequential episodes on a populated server (2 topics, 3 subscriptions, backlog and leases): 20-30 seeded requests each with one corrupted field (hostile resource names incl. near-miss names, empty / 1 MiB / NUL / non-ASCII / huge non-ASCII / slash-heavy strings; boundary integers for page_size, max_messages, ack_deadline_seconds, modify seconds, max_outstanding_messages; ack-ID batches with one bad element at each position (non-numeric, signed, padded, fractional, full-width digits, decimal numbers just past 2^64-1 such as 2^64 and 2^64+1, and batches that are bad all over: 100 opaque 180-character IDs or 3000 short ones); hostile page tokens; unsupported push endpoints; StreamingPull first messages and control messages that mix valid acks with invalid modifications, repeat subscription / max_outstanding_* or have mismatched arrays), every 5th request a pair of corruptions. Non-trivial: >=1 corrupted request was answered. Distinct: (request type, field, corruption class).".into(),
     }
 }
 
@@ -343,8 +343,20 @@ async fn episode(p: &EpParams) -> EpReport {
                 let mut ids = leases1.clone();
                 let pos = rng.below(ids.len() as u64 + 1) as usize;
                 ids.insert(pos, bad.to_string());
+                // one request in five is bad all over: a hundred opaque 180-character IDs (what another
+                // Pub/Sub implementation hands out), or a few thousand short ones
+                let mut class = format!("bad-id@{}", pos.min(2));
+                if rng.chance(1, 5) {
+                    if rng.chance(1, 2) {
+                        ids.extend((0..100).map(|i| format!("{}{:04}", "RVNEUAYWLF1GSFE3GQhoUQ5PXiM_NSAoRRIJB08CKF15MU0sQVhwaFENGXJ9YHxrUgsFB0J8fXJ9W1lbdQVRDRtzfWB9a1kTAgZCe3x5eFxZ".repeat(2).chars().take(176).collect::<String>(), i)));
+                        class = "100-long-bad-ids".into();
+                    } else {
+                        ids.extend((0..3000).map(|i| format!("x{}", i)));
+                        class = "3000-bad-ids".into();
+                    }
+                }
                 if let Some(r) = bounded(&mut st.rep, "Acknowledge", cx.ack(&s1, &ids)).await {
-                    st.judge("Acknowledge.ack_ids", &format!("bad-id@{}", pos.min(2)), code_of(&r), Some(INVALID_ARGUMENT), &[]).await;
+                    st.judge("Acknowledge.ack_ids", &class, code_of(&r), Some(INVALID_ARGUMENT), &[]).await;
                 }
             }
             4 => {
@@ -437,6 +449,7 @@ async fn episode(p: &EpParams) -> EpReport {
                 let (what, class, req) = match rng.below(7) {
                     0 => ("StreamingPull.control", "valid-acks+negative-seconds", pb::StreamingPullRequest { ack_ids: vec![a.clone()], modify_deadline_ack_ids: vec![b.clone()], modify_deadline_seconds: vec![-1], ..Default::default() }),
                     1 => ("StreamingPull.control", "valid-acks+bad-modify-id", pb::StreamingPullRequest { ack_ids: vec![a.clone()], modify_deadline_ack_ids: vec![rng.pick(&BAD_ACK_IDS).to_string()], modify_deadline_seconds: vec![30], ..Default::default() }),
+                    2 if rng.chance(1, 4) => ("StreamingPull.control", "3000-bad-ack-ids+valid-modify", pb::StreamingPullRequest { ack_ids: (0..3000).map(|i| format!("x{}", i)).collect(), modify_deadline_ack_ids: vec![b.clone()], modify_deadline_seconds: vec![0], ..Default::default() }),
                     2 => ("StreamingPull.control", "bad-ack-id+valid-modify", pb::StreamingPullRequest { ack_ids: vec![rng.pick(&BAD_ACK_IDS).to_string()], modify_deadline_ack_ids: vec![b.clone()], modify_deadline_seconds: vec![0], ..Default::default() }),
                     3 => ("StreamingPull.control", "repeated-subscription", pb::StreamingPullRequest { subscription: s1.clone(), ack_ids: vec![a.clone()], ..Default::default() }),
                     4 => ("StreamingPull.control", "repeated-max-outstanding", pb::StreamingPullRequest { max_outstanding_messages: 5, ack_ids: vec![a.clone()], ..Default::default() }),
